@@ -13,6 +13,9 @@ import BareProofs.C10
 * `Inv`: the position stack `Where` moves together with `PState.defs` / `PState.func` and only holds positions of
   earlier logical lines.
 * `stepLogical_shift`: the parser commutes with a shift of the start line number.
+* `Abs`, `astep`, `stepLine_abs`: the lowering step on the abstraction (function open?, stack floor, block kinds) that
+  decides acceptance and error texts; `Sim0`: states with the same abstraction behave alike.
+* `SimpleLine`, `stepAll_simple`, `scriptLines_prepend_simple`: simple valid statement lines put in front.
 -/
 
 namespace C06
@@ -698,6 +701,34 @@ theorem stepLogical_error {start : Nat} {ll : List (Nat × String)} {s : St} {ix
       · cases h; exact (structural_good hmem hp _).1
       · cases h
 
+/-- an error of one line is an expression error (one of the two texts of `parse_expression`) or a block-structure error
+with column 1 -/
+theorem stepLogical_error_kind {start : Nat} {s : St} {ix : Nat} {line : String} {e : ParserError}
+    (h : stepLogical start s ix line = .error e) : ExprMsg e.error ∨ e.column = 1 := by
+  have hcol : ∀ (err : LowerErr), (structural s.2 line (start + ix) err).column = 1 := by
+    intro err
+    unfold structural
+    split
+    · split <;> rfl
+    · rfl
+  rw [stepLogical_eq] at h
+  split at h
+  · rename_i e' hpre
+    cases h
+    unfold preCheck at hpre
+    split at hpre
+    · split at hpre
+      · cases hpre; exact .inr (hcol _)
+      · cases hpre
+    · cases hpre
+  · split at h
+    · rename_i pe hpe
+      cases h
+      exact .inl (classify_error_column line pe hpe).1
+    · split at h
+      · cases h; exact .inr (hcol _)
+      · cases h
+
 /-! ## shifting the start line number -/
 
 def shiftE (d : Nat) (e : ParserError) : ParserError := { e with lineNumber := e.lineNumber + d }
@@ -872,5 +903,474 @@ theorem scriptLines_prepend (pre lines : List String)
   unfold Text.scriptLines
   rw [List.flatMap_append]
   exact logicalLinesCore_prepend _ _ hpre
+
+/-! ## what acceptance and error reporting depend on: an abstraction of the parser state
+
+Used for `prepend_statements_shift`: statements put in front change the statement lists (and the jump positions recorded
+in `if` entries) but not the abstraction, and two states with the same abstraction accept / reject the same lines with
+the same errors. -/
+
+/-- what the block-structure tests of the lowering look at in a stack entry -/
+inductive Tag where
+  | ifT (hasElse : Bool) | whileT | forT
+deriving DecidableEq, Repr
+
+def tag : LabelDef → Tag
+  | .ifD _ _ _ h => .ifT h
+  | .whileD .. => .whileT
+  | .forD .. => .forT
+
+def Tag.kind : Tag → String
+  | .ifT _ => "if" | .whileT => "while" | .forT => "for"
+
+theorem tag_kind (d : LabelDef) : (tag d).kind = d.kind := by cases d <;> rfl
+
+/-- the part of the parser state that decides acceptance and the error text: is a function open, its stack floor, the
+kinds of the open blocks -/
+structure Abs where
+  inFunc : Bool
+  floor : Nat
+  tags : List Tag
+deriving DecidableEq, Repr
+
+def abs (ps : PState) : Abs := ⟨ps.func.isSome, ps.floor, ps.defs.map tag⟩
+
+def Abs.scope (a : Abs) : List Tag := a.tags.take (a.tags.length - a.floor)
+
+def hasLoop : List Tag → Bool
+  | [] => false
+  | .ifT _ :: r => hasLoop r
+  | _ :: _ => true
+
+def headKind : List Tag → String
+  | t :: _ => t.kind
+  | [] => (default : LabelDef).kind
+
+/-- the lowering step on the abstraction -/
+def astep (a : Abs) : Line → Except LowerErr Abs
+  | .assign .. | .exprStmt _ | .label _ | .jump .. | .ret _ | .include .. => .ok a
+  | .funcBegin .. => if a.inFunc then .error .nestedFunction else .ok ⟨true, a.tags.length, a.tags⟩
+  | .funcEnd =>
+      if a.inFunc then
+        if a.tags.length > a.floor then .error (.missingEnd (headKind a.tags)) else .ok ⟨false, 0, a.tags⟩
+      else .error .noMatchingFunction
+  | .ifBegin _ => .ok { a with tags := .ifT false :: a.tags }
+  | .elif _ =>
+      match a.scope with
+      | .ifT h :: _ => if h then .error .elifAfterElse else .ok { a with tags := .ifT false :: a.tags.tail }
+      | _ => .error .noMatchingIf
+  | .else_ =>
+      match a.scope with
+      | .ifT h :: _ => if h then .error .multipleElse else .ok { a with tags := .ifT true :: a.tags.tail }
+      | _ => .error .noMatchingIf
+  | .endif =>
+      match a.scope with
+      | .ifT _ :: _ => .ok { a with tags := a.tags.tail }
+      | _ => .error .noMatchingIf
+  | .whileBegin _ => .ok { a with tags := .whileT :: a.tags }
+  | .endwhile =>
+      match a.scope with
+      | .whileT :: _ => .ok { a with tags := a.tags.tail }
+      | _ => .error .noMatchingWhile
+  | .forBegin .. => .ok { a with tags := .forT :: a.tags }
+  | .endfor =>
+      match a.scope with
+      | .forT :: _ => .ok { a with tags := a.tags.tail }
+      | _ => .error .noMatchingFor
+  | .break_ => if hasLoop a.scope then .ok a else .error .breakOutside
+  | .continue_ => if hasLoop a.scope then .ok a else .error .continueOutside
+
+theorem abs_scope (ps : PState) : (abs ps).scope = ps.scopeDefs.map tag := by
+  simp [Abs.scope, abs, PState.scopeDefs, List.map_take]
+
+@[simp] theorem setCur_floor (s : PState) (ss : List Stmt) : (s.setCur ss).floor = s.floor := by
+  obtain ⟨a, f, c, d, e⟩ := s
+  cases f <;> rfl
+@[simp] theorem emit_floor (s : PState) (ss : List Stmt) : (s.emit ss).floor = s.floor := setCur_floor _ _
+
+@[simp] theorem abs_setCur (s : PState) (ss : List Stmt) : abs (s.setCur ss) = abs s := by simp [abs]
+@[simp] theorem abs_emit (s : PState) (ss : List Stmt) : abs (s.emit ss) = abs s := by simp [abs]
+
+theorem abs_mk (s1 : PState) (d : List LabelDef) (i n : Nat) :
+    abs (PState.mk s1.stmts s1.func d i n) = ⟨s1.func.isSome, s1.floor, d.map tag⟩ := rfl
+
+theorem findLoop_hasLoop : ∀ ds : List LabelDef, (findLoop ds).isSome = hasLoop (ds.map tag)
+  | [] => rfl
+  | .ifD .. :: rest => by simp [findLoop, hasLoop, tag, findLoop_hasLoop rest]
+  | .whileD .. :: rest => by simp [findLoop, hasLoop, tag]
+  | .forD .. :: rest => by simp [findLoop, hasLoop, tag]
+
+theorem abs_with (s1 : PState) (d : List LabelDef) (i n : Nat) :
+    abs (PState.mk s1.stmts s1.func d i n) = ⟨(abs s1).inFunc, (abs s1).floor, d.map tag⟩ := rfl
+
+theorem abs_tags (ps : PState) : (abs ps).tags = ps.defs.map tag := rfl
+
+theorem headKind_map (ds : List LabelDef) : headKind (ds.map tag) = ds.head!.kind := by
+  cases ds with
+  | nil => rfl
+  | cons d r => simp [headKind, tag_kind, List.head!]
+
+theorem findLoop_not_if : ∀ (ds : List LabelDef) {pre a b c d post},
+    findLoop ds ≠ some (pre, .ifD a b c d, post)
+  | [], _, _, _, _, _, _ => by simp [findLoop]
+  | .whileD .. :: rest, _, _, _, _, _, _ => by simp [findLoop]
+  | .forD .. :: rest, _, _, _, _, _, _ => by simp [findLoop]
+  | .ifD .. :: rest, pre, a, b, c, d, post => by
+      intro h
+      simp only [findLoop, Option.map_eq_some_iff] at h
+      obtain ⟨⟨pre', l', post'⟩, h1, h2⟩ := h
+      simp only [Prod.mk.injEq] at h2
+      obtain ⟨_, rfl, _⟩ := h2
+      exact findLoop_not_if rest h1
+
+theorem stepLine_abs (ps : PState) (l : Line) : (stepLine ps l).map abs = astep (abs ps) l := by
+  have hsc := abs_scope ps
+  have hfl := findLoop_hasLoop ps.scopeDefs
+  cases l <;> simp only [stepLine, astep]
+  all_goals first | (simp [Except.map]; done) | skip
+  case funcBegin =>
+    cases hf : ps.func <;> simp [abs, hf, Except.map, PState.floor]
+  case funcEnd =>
+    cases hf : ps.func with
+    | none => simp [abs, hf, Except.map]
+    | some f =>
+      have e1 : (abs ps).inFunc = true := by simp [abs, hf]
+      have e2 : (abs ps).floor = f.floor := by simp [abs, PState.floor, hf]
+      have e3 : (abs ps).tags.length = ps.defs.length := by simp [abs]
+      simp only [e1, e2, e3, if_true]
+      split
+      · simp [Except.map, abs_tags, headKind_map]
+      · simp [Except.map, abs, PState.floor]
+  case ifBegin | whileBegin | forBegin =>
+    simp [Except.map, abs_with, abs_tags, tag]
+  case elif | else_ | endif | endwhile | endfor =>
+    rw [hsc]
+    cases hsd : ps.scopeDefs with
+    | nil => simp [Except.map]
+    | cons d r =>
+      cases d <;> simp only [List.map_cons, tag]
+      all_goals first
+        | (simp [Except.map]; done)
+        | (split <;> simp [Except.map, abs_with, abs_tags, tag])
+        | (simp [Except.map, abs_with, abs_tags])
+  case break_ | continue_ =>
+    rw [hsc, ← hfl]
+    cases hfind : findLoop ps.scopeDefs with
+    | none => simp [Except.map]
+    | some x =>
+      obtain ⟨pre, d, post⟩ := x
+      obtain ⟨t, ht⟩ := scopeDefs_prefix ps
+      have hsplit := findLoop_split _ hfind
+      cases d with
+      | ifD a b c d => exact absurd hfind (findLoop_not_if _)
+      | whileD => simp [Except.map]
+      | forD i ixv hc =>
+        simp only [Except.map, Option.isSome_some, if_true]
+        first
+          | (simp; done)
+          | (rw [abs_with, abs_emit]
+             congr 1
+             simp only [abs, Abs.mk.injEq, true_and]
+             rw [ht, hsplit]
+             simp [tag])
+  case «include» =>
+    split <;> simp [Except.map]
+
+/-! ### two states with the same abstraction behave alike -/
+
+def errOf {α : Type} : Except ParserError α → Option ParserError
+  | .error e => some e
+  | .ok _ => none
+
+theorem stepLine_abs_eq {ps1 ps2 : PState} (h : abs ps1 = abs ps2) (l : Line) :
+    (stepLine ps1 l).map abs = (stepLine ps2 l).map abs := by
+  rw [stepLine_abs, stepLine_abs, h]
+
+theorem stepLine_abs_error {ps1 ps2 : PState} (h : abs ps1 = abs ps2) {l : Line} {e : LowerErr}
+    (h1 : stepLine ps1 l = .error e) : stepLine ps2 l = .error e := by
+  have := stepLine_abs_eq h l
+  rw [h1] at this
+  cases h2 : stepLine ps2 l with
+  | error e2 => rw [h2] at this; simp only [Except.map, Except.error.injEq] at this; rw [this]
+  | ok x => rw [h2] at this; simp [Except.map] at this
+
+theorem stepLine_abs_ok {ps1 ps2 ps1' : PState} (h : abs ps1 = abs ps2) {l : Line}
+    (h1 : stepLine ps1 l = .ok ps1') : ∃ ps2', stepLine ps2 l = .ok ps2' ∧ abs ps1' = abs ps2' := by
+  have := stepLine_abs_eq h l
+  rw [h1] at this
+  cases h2 : stepLine ps2 l with
+  | error e2 => rw [h2] at this; simp [Except.map] at this
+  | ok x => rw [h2] at this; simp only [Except.map, Except.ok.injEq] at this; exact ⟨x, rfl, this⟩
+
+theorem abs_defs_length {ps1 ps2 : PState} (h : abs ps1 = abs ps2) : ps1.defs.length = ps2.defs.length := by
+  have := congrArg (fun a => a.tags.length) h
+  simpa [abs] using this
+
+theorem abs_func_isSome {ps1 ps2 : PState} (h : abs ps1 = abs ps2) : ps1.func.isSome = ps2.func.isSome :=
+  congrArg Abs.inFunc h
+
+theorem whereStep_abs {ps1 ps2 ps1' ps2' : PState} (h : abs ps1 = abs ps2) (h' : abs ps1' = abs ps2') (wh : Where)
+    (line : String) (ln : Nat) : whereStep ps1 ps1' wh line ln = whereStep ps2 ps2' wh line ln := by
+  have l1 := abs_defs_length h
+  have l2 := abs_defs_length h'
+  have f1 := abs_func_isSome h
+  have f2 := abs_func_isSome h'
+  simp only [whereStep, l1, l2]
+  congr 1
+  cases hf1 : ps1.func <;> cases hf2 : ps2.func <;> cases hf1' : ps1'.func <;> cases hf2' : ps2'.func <;>
+    simp_all
+
+/-- agreement of two results of the line loop: same error, or states with the same abstraction and the same recorded
+positions -/
+def Sim0 : Except ParserError St → Except ParserError St → Prop
+  | .error e1, .error e2 => e1 = e2
+  | .ok s1, .ok s2 => abs s1.1 = abs s2.1 ∧ s1.2 = s2.2
+  | _, _ => False
+
+theorem preCheck_abs {ps1 ps2 : PState} (h : abs ps1 = abs ps2) (wh : Where) (line : String) (ln : Nat) :
+    preCheck (ps1, wh) line ln = preCheck (ps2, wh) line ln := by
+  unfold preCheck
+  split
+  · simp only
+    cases h1 : stepLine ps1 (.elif dummyExpr) with
+    | error e => rw [stepLine_abs_error h h1]
+    | ok x => obtain ⟨y, hy, _⟩ := stepLine_abs_ok h h1; rw [hy]
+  · rfl
+
+theorem stepLogical_sim0 {ps1 ps2 : PState} (h : abs ps1 = abs ps2) (start : Nat) (wh : Where) (ix : Nat) (line : String) :
+    Sim0 (stepLogical start (ps1, wh) ix line) (stepLogical start (ps2, wh) ix line) := by
+  rw [stepLogical_eq, stepLogical_eq, preCheck_abs h]
+  cases preCheck (ps2, wh) line (start + ix) with
+  | error e => simp [Sim0]
+  | ok u =>
+    simp only
+    cases Scan.classify ExprParse.parseExpr line with
+    | error pe => simp [Sim0]
+    | ok cl =>
+      simp only
+      cases h1 : stepLine ps1 cl with
+      | error e => rw [stepLine_abs_error h h1]; simp [Sim0]
+      | ok x =>
+        obtain ⟨y, hy, hxy⟩ := stepLine_abs_ok h h1
+        rw [hy]
+        exact ⟨hxy, whereStep_abs h hxy _ _ _⟩
+
+theorem stepAll_sim0 (start : Nat) : ∀ (ll : List (Nat × String)) (s1 s2 : St), abs s1.1 = abs s2.1 → s1.2 = s2.2 →
+    Sim0 (stepAll start s1 ll) (stepAll start s2 ll)
+  | [], s1, s2, h, hw => ⟨h, hw⟩
+  | (ix, line) :: rest, (ps1, wh1), (ps2, wh2), h, hw => by
+      simp only at h hw
+      subst hw
+      have := stepLogical_sim0 h start wh1 ix line
+      simp only [stepAll]
+      cases h1 : stepLogical start (ps1, wh1) ix line with
+      | error e1 =>
+        cases h2 : stepLogical start (ps2, wh1) ix line with
+        | error e2 => rw [h1, h2] at this; exact this
+        | ok y => rw [h1, h2] at this; exact this.elim
+      | ok x =>
+        cases h2 : stepLogical start (ps2, wh1) ix line with
+        | error e2 => rw [h1, h2] at this; exact this.elim
+        | ok y =>
+          rw [h1, h2] at this
+          exact stepAll_sim0 start rest x y this.1 this.2
+
+theorem finishAll_sim0 (start : Nat) (s1 s2 : St) (h : abs s1.1 = abs s2.1) (hw : s1.2 = s2.2) (dg : Option Text.LineErr) :
+    errOf (finishAll start s1 dg) = errOf (finishAll start s2 dg) := by
+  obtain ⟨ps1, wh⟩ := s1
+  obtain ⟨ps2, wh2⟩ := s2
+  simp only at h hw
+  subst hw
+  have ht : ps1.defs.map tag = ps2.defs.map tag := congrArg Abs.tags h
+  have hf := abs_func_isSome h
+  cases dg with
+  | some d => rfl
+  | none =>
+    simp only [finishAll]
+    cases hd1 : ps1.defs with
+    | cons a as =>
+      cases hd2 : ps2.defs with
+      | nil => rw [hd1, hd2] at ht; simp at ht
+      | cons b bs =>
+        rw [hd1, hd2] at ht
+        simp only [List.map_cons, List.cons.injEq] at ht
+        have hk : a.kind = b.kind := by rw [← tag_kind, ← tag_kind, ht.1]
+        cases wh.defs <;> simp [errOf, hk]
+    | nil =>
+      cases hd2 : ps2.defs with
+      | cons b bs => rw [hd1, hd2] at ht; simp at ht
+      | nil =>
+        simp only
+        cases hf1 : ps1.func <;> cases hf2 : ps2.func <;> simp_all [errOf]
+        cases wh.func <;> rfl
+
+/-- the parser started in an arbitrary state -/
+def parseFrom (start : Nat) (s : St) (ll : List (Nat × String)) (dg : Option Text.LineErr) :
+    Except ParserError (List Stmt) :=
+  match stepAll start s ll with
+  | .error e => .error e
+  | .ok s' => finishAll start s' dg
+
+theorem parseScript_eq_parseFrom (chunks : List String) (start : Nat) :
+    parseScript chunks start = parseFrom start (PState.init, {}) (Text.scriptLines chunks).1 (Text.scriptLines chunks).2 := rfl
+
+theorem parseFrom_sim0 (start : Nat) (s1 s2 : St) (h : abs s1.1 = abs s2.1) (hw : s1.2 = s2.2)
+    (ll : List (Nat × String)) (dg : Option Text.LineErr) :
+    errOf (parseFrom start s1 ll dg) = errOf (parseFrom start s2 ll dg) := by
+  have := stepAll_sim0 start ll s1 s2 h hw
+  unfold parseFrom
+  cases h1 : stepAll start s1 ll with
+  | error e1 =>
+    cases h2 : stepAll start s2 ll with
+    | error e2 => rw [h1, h2] at this; simp only [Sim0] at this; rw [this]
+    | ok y => rw [h1, h2] at this; exact this.elim
+  | ok x =>
+    cases h2 : stepAll start s2 ll with
+    | error e2 => rw [h1, h2] at this; exact this.elim
+    | ok y =>
+      rw [h1, h2] at this
+      exact finishAll_sim0 start x y this.1 this.2 dg
+
+/-! ### "simple valid statement" lines in front -/
+
+/-- the statement kinds that only append one statement to the current list -/
+def IsEmit : Line → Bool
+  | .assign .. | .exprStmt _ | .label _ | .jump .. | .ret _ => true
+  | _ => false
+
+theorem stepLine_emit {cl : Line} (h : IsEmit cl = true) (ps : PState) : ∃ ss, stepLine ps cl = .ok (ps.emit ss) := by
+  cases cl <;> simp [IsEmit] at h <;> exact ⟨_, rfl⟩
+
+/-- a *simple valid statement* chunk: one physical line, not a comment, no continuation backslash, that classifies
+(without error) as an assignment, expression statement, label, jump or return -/
+structure SimpleLine (p : String) : Prop where
+  notComment : Text.isComment p = false
+  noCont : Text.contBody? p.toList = none
+  noNl : '\n' ∉ p.toList
+  emits : ∃ cl, Scan.classify ExprParse.parseExpr p = .ok cl ∧ IsEmit cl = true
+
+theorem classifyL_emit_not_elif {pexp : String → Except ParseErr Expr} {line : Chars} {cl : Line}
+    (h : classifyL pexp line = .ok cl) (he : IsEmit cl = true) (off : Nat) (e : Chars) : shape line ≠ .elif off e := by
+  intro hs
+  unfold classifyL at h
+  simp only [hs] at h
+  cases hp : pexp (String.ofList e) with
+  | error x => rw [hp] at h; simp [shiftErr, Except.map] at h
+  | ok x =>
+    rw [hp] at h
+    simp only [shiftErr, Except.map, Except.ok.injEq] at h
+    subst h
+    simp [IsEmit] at he
+
+theorem preCheck_simple {p : String} {cl : Line} (hc : Scan.classify ExprParse.parseExpr p = .ok cl)
+    (he : IsEmit cl = true) (s : St) (ln : Nat) : preCheck s p ln = .ok () := by
+  unfold preCheck
+  split
+  · rename_i off e hs
+    exact absurd hs (classifyL_emit_not_elif hc he off e)
+  · rfl
+
+theorem whereStep_emit {ps : PState} {wh : Where} (hs : Sync (ps, wh)) (ss : List Stmt) (line : String) (ln : Nat) :
+    whereStep ps (ps.emit ss) wh line ln = wh := by
+  obtain ⟨wdefs, wfunc⟩ := wh
+  have h2 := hs.fsome
+  simp only at h2
+  simp only [whereStep, emit_defs]
+  congr 1
+  · simp
+  · have := emit_func_isSome ps ss
+    cases hf : ps.func <;> cases hf' : (ps.emit ss).func <;> simp_all
+
+theorem stepLogical_simple {p : String} (hp : SimpleLine p) (start : Nat) (ps : PState) (wh : Where) (hs : Sync (ps, wh))
+    (ix : Nat) : ∃ ss, stepLogical start (ps, wh) ix p = .ok (ps.emit ss, wh) := by
+  obtain ⟨cl, hc, he⟩ := hp.emits
+  obtain ⟨ss, hss⟩ := stepLine_emit he ps
+  refine ⟨ss, ?_⟩
+  rw [stepLogical_eq, preCheck_simple hc he, hc]
+  simp only [hss, whereStep_emit hs]
+
+theorem stepAll_simple (start : Nat) : ∀ (pl : List (Nat × String)) (ps : PState) (wh : Where),
+    (∀ x ∈ pl, SimpleLine x.2) → Sync (ps, wh) →
+    ∃ ps', stepAll start (ps, wh) pl = .ok (ps', wh) ∧ abs ps' = abs ps
+  | [], ps, wh, _, _ => ⟨ps, rfl, rfl⟩
+  | (ix, p) :: rest, ps, wh, h, hs => by
+      obtain ⟨ss, hss⟩ := stepLogical_simple (h (ix, p) (by simp)) start ps wh hs ix
+      have hs' : Sync (ps.emit ss, wh) := stepLogical_sync hs hss
+      obtain ⟨ps', h1, h2⟩ := stepAll_simple start rest (ps.emit ss) wh (fun x hx => h x (List.mem_cons_of_mem _ hx)) hs'
+      refine ⟨ps', ?_, by rw [h2, abs_emit]⟩
+      simp only [stepAll, hss, h1]
+
+theorem stepAll_append (start : Nat) : ∀ (a b : List (Nat × String)) (s : St),
+    stepAll start s (a ++ b) = match stepAll start s a with
+      | .ok s' => stepAll start s' b
+      | .error e => .error e
+  | [], _, _ => rfl
+  | (ix, line) :: rest, b, s => by
+      simp only [List.cons_append, stepAll]
+      cases stepLogical start s ix line with
+      | error e => rfl
+      | ok s' => exact stepAll_append start rest b s'
+
+/-- `(i, l₀), (i+1, l₁), …` -/
+def numbered {α : Type} : Nat → List α → List (Nat × α)
+  | _, [] => []
+  | i, c :: r => (i, c) :: numbered (i + 1) r
+
+theorem numbered_map {α β : Type} (f : α → β) : ∀ (i : Nat) (l : List α),
+    (numbered i l).map (fun x => (x.1, f x.2)) = numbered i (l.map f)
+  | _, [] => rfl
+  | i, c :: r => by simp [numbered, numbered_map f (i + 1) r]
+
+theorem numbered_mem {α : Type} : ∀ (i : Nat) (l : List α) (x : Nat × α), x ∈ numbered i l → x.2 ∈ l
+  | _, [], _, h => by cases h
+  | i, c :: r, x, h => by
+      simp only [numbered, List.mem_cons] at h
+      rcases h with rfl | h
+      · simp
+      · exact List.mem_cons_of_mem _ (numbered_mem (i + 1) r x h)
+
+theorem loopL_plain : ∀ (cs : List Chars) (i ix : Nat), (∀ c ∈ cs, isCommentL c = false ∧ contBody? c = none) →
+    loopL i cs [] ix = (numbered i cs, none)
+  | [], _, _, _ => rfl
+  | c :: rest, i, ix, h => by
+      obtain ⟨h1, h2⟩ := h c (by simp)
+      have ih := loopL_plain rest (i + 1) i (fun c' hc' => h c' (List.mem_cons_of_mem _ hc'))
+      simp [loopL, h1, h2, ih, emit, numbered]
+
+/-- simple-statement chunks in front: they are the first logical lines, one each; the rest is re-indexed -/
+theorem scriptLines_prepend_simple (pre lines : List String) (hpre : ∀ p ∈ pre, SimpleLine p) :
+    Text.scriptLines (pre ++ lines) =
+      (numbered 0 pre ++ (Text.scriptLines lines).1.map (fun x => (x.1 + pre.length, x.2)),
+       (Text.scriptLines lines).2.map (addIx pre.length)) := by
+  have hsplit : pre.flatMap Text.splitLines = pre := by
+    clear lines
+    induction pre with
+    | nil => rfl
+    | cons p rest ih =>
+      have h1 : Text.splitLines p = [p] := by
+        unfold Text.splitLines
+        rw [C10.split_no_nl (hpre p (by simp)).noNl]
+        simp
+      rw [List.flatMap_cons, h1, ih (fun l hl => hpre l (List.mem_cons_of_mem _ hl))]
+      rfl
+  have hP' : ∀ c ∈ pre.map String.toList, isCommentL c = false ∧ contBody? c = none := by
+    intro c hc
+    obtain ⟨l, hl, rfl⟩ := List.mem_map.mp hc
+    exact ⟨(hpre l hl).notComment, (hpre l hl).noCont⟩
+  have h0 : logicalLinesL (pre.map String.toList) = (numbered 0 (pre.map String.toList), none) :=
+    loopL_plain _ 0 0 hP'
+  have hc := C10.logical_lines_compositional (pre.map String.toList)
+    ((lines.flatMap Text.splitLines).map String.toList) (by rw [h0])
+  unfold Text.scriptLines
+  rw [List.flatMap_append, hsplit]
+  unfold Text.logicalLinesCore
+  simp only [List.map_append, hc, h0, C10.reindex, List.length_map, List.map_map, Option.map_map]
+  refine Prod.ext ?_ ?_
+  · simp only [Function.comp_def]
+    congr 1
+    rw [numbered_map, List.map_map]
+    simp [Function.comp_def]
+  · simp only
+    congr 1
 
 end C06
